@@ -76,6 +76,8 @@ let mk init step = fun () -> let st = ref init in fun op args -> let (s', out) =
 
 let components : (string * (string list * (unit -> z -> tok list -> tok list))) list = [
   ("dt", (["new"; "seg"; "adv"], mk (dt_new Z0) dt_step));
+  ("tree", (["mk"; "clone"; "copy"; "assign"; "move"; "massign"; "setinner"; "setinnerref"; "release"; "div"; "del"; "tag";
+             "pkwrap"; "pkown"; "pkcopy"; "pkmove"; "pkrel"; "pkdiv"], mk ts0 tree_step));
   ("ipr", (["pkt"], mk [] ipr_step));
   ("ack", (["new"; "pkt"; "q"], mk (ack_new Z0 false) ack_step));
 ]
